@@ -2,6 +2,7 @@
 from pyvc.api import contract
 from spec.prims import implies, is_absent, member, old, same, class_is
 from spec.jsonrpc import id_ok, valid_error_obj, valid_request_obj, valid_response_obj
+from spec.wire import request_wire
 
 from pjrpc.common.common import UNSET
 from pjrpc.common.v20 import Request, Response
@@ -82,12 +83,7 @@ class RequestToJson:
     def ensures_wire(self, result):
         # C05: jsonrpc always "2.0"; an id member iff not a notification; a params member iff it has parameters;
         # nothing else
-        return (
-            member(result, 'jsonrpc') == '2.0' and same(member(result, 'method'), self._method)
-            and (same(member(result, 'id'), self._id) if self._id is not None else is_absent(member(result, 'id')))
-            and (same(member(result, 'params'), self._params) if self._params else is_absent(member(result, 'params')))
-            and len(result) == 2 + (1 if self._id is not None else 0) + (1 if self._params else 0)
-        )
+        return request_wire(result, self)
 
 
 @contract('pjrpc.common.exceptions:JsonRpcError.to_json', props=['C05', 'C03', 'C01'])
